@@ -110,7 +110,7 @@ theorem runForever_reduce (c : Cfg) (hq : Quiet c) (s0 : St) (evs : List TEv) (d
     runForever c s0 = finishRun c (dispLoop c c.fuel (enterLoop c s0 evs ds)) := by
   unfold runForever runForeverO
   simp only [hacc, hs, Bool.not_true, Bool.false_eq_true, ↓reduceIte, Option.isSome_none]
-  unfold runBody firstStage afterBody setSock connect prologue
+  unfold runBody firstStage afterBody setSock afterConnect afterOpen afterLoop release openCb connect prologue
   simp only [hd, hiv, hrc, gen_resets, gen_finally]
   simp only [Bool.false_eq_true, ↓reduceIte, ne_eq, not_true_eq_false, St.emit, Bool.false_and]
   rw [callback_quiet c hq]
@@ -223,7 +223,7 @@ theorem runForeverO_reduce (c : Cfg) (hq : Quiet c) (s0 : St) (evs : List TEv) (
     runForeverO c s0 = finishRunO c (dispLoop c c.fuel (enterLoop c s0 evs ds)) := by
   unfold runForeverO
   simp only [hacc, hs, Bool.not_true, Bool.false_eq_true, ↓reduceIte, Option.isSome_none]
-  unfold runBody firstStage afterBody setSock connect prologue
+  unfold runBody firstStage afterBody setSock afterConnect afterOpen afterLoop release openCb connect prologue
   simp only [hd, hiv, hrc, gen_resets, gen_finally]
   simp only [Bool.false_eq_true, ↓reduceIte, ne_eq, not_true_eq_false, St.emit, Bool.false_and]
   rw [callback_quiet c hq]
